@@ -30,6 +30,15 @@ Theorem C01_monitor_decides_trace_ok : forall tr, callback_monitor tr = VOk <-> 
 Proof. exact monitor_ok_iff. Qed.
 Print Assumptions C01_monitor_decides_trace_ok.
 
+(* ... and a second oracle for the status with which a request ends when the application cancels or
+   destroys: a request pending at a top-level ares_cancel() that completes inside it carries
+   ARES_ECANCELLED; a request pending at ares_destroy() that completes inside it carries
+   ARES_EDESTRUCTION (or ARES_ECANCELLED, ares_cancel() from a callback), as long as no callback has
+   made a request or changed the servers inside that ares_destroy() *)
+Theorem C01_status_monitor_decides_status_ok : forall tr, status_monitor tr = VOk <-> status_ok tr.
+Proof. exact status_monitor_ok_iff. Qed.
+Print Assumptions C01_status_monitor_decides_status_ok.
+
 (* no use after release, no double release, for every history, tape and fuel *)
 Theorem C01_no_ub :
   forall cf fuel h final, cf_fix cf = all_fixed ->
